@@ -124,7 +124,7 @@ class Node(metaclass=abc.ABCMeta):
         if isinstance(other, Node) and other.__class__ is not self.__class__:
             return (
                 self.szout == other.szout
-                and any(self._output)
+                and any(self.output)
                 and all(s == o for s, o in zip(self.output, other.output))
             )
         return id(self) == id(other)
